@@ -269,6 +269,10 @@ def content_cases(rng, n):
         text = {'string': 'a{content:%s%s%s;top:1px} b{c:d}', 'url': 'a{background:url(%s%s%s);top:1px} b{c:d}',
                 'attr': 'a[b=%s%s%s]{c:d} b{c:d}', 'import': '@import %s%s%s print; b{c:d}'}[kind] % (q, esc, q)
         out.append((kind + '-trailing-backslash', text, s_))
+    for _ in range(n // 6):
+        # an ident ending in an escaped space, after another token (value, selector)
+        a_ = rng.choice(['a', 'xy', '']) + '\\ '
+        out.append(('ident-escaped-space', rng.choice(['a{x: b %s}', 'a{x: b %s c}', 'a{x: 1px %s!important}', 'b %s c{d:e}', 'a{x:f(b %s)}']) % a_, a_))
     for _ in range(n // 4):
         nm = rng.choice(['1a', '9', '-1x', '2-b'])
         out.append(('digit-start-name', '.\\%x %s{c:d}' % (ord(nm[0]), nm[1:]) if nm[0] != '-' else '.-\\31 x{c:d}', nm))
